@@ -12,7 +12,8 @@ RULE = ("cases = operation trees over the header-only MTBDD templates instantiat
         "`atom atom apply project` and `atom atom atom ternary-apply` over 2 variables and leaf values {0,1}, atom = "
         "every construction from an assignment in {0,1,X}^2 or a constant; targeted families (canonicity: one function built in several ways; "
         "result equal to an operand; constants; every variable-order split of classifyCase incl. interleaved and disjoint supports; "
-        "projection of each variable set; monotone renamings; ExtendWith / GetMtbddForPrefix round trips; don't-care at every position) and "
+        "projection of each variable set; monotone renamings; ExtendWith / GetMtbddForPrefix round trips; don't-care at every position; large diagrams "
+        "accumulated from many constructions) and "
         "random trees of up to 10 operations over up to 5 variables; every handle is observed on ALL 3^NV assignments, operator== on all "
         "pairs, GetPaths, and the traversing functors. A case is non-trivial when it has >= 3 handles, uses >= 2 kinds of operation and some "
         "diagram has >= 2 internal nodes (distinct by case text)")
@@ -26,6 +27,7 @@ TRUSTED_BASE = [
 ]
 ASSUMPTIONS = [
     "one fixed variable order: ExtendWith is only used with an offset above the variables present, Rename with a monotone renaming (both are preconditions stated in the header); every assignment handed to GetValue / GetMtbddForPrefix is long enough (the code reads past the end otherwise; asserts are compiled out)",
+    "GetValue on an assignment with don't-care positions: the header promises 'an arbitrary value' among those the assignment can reach, so the gate (dcvalue) is membership in the values of the total refinements; that the code follows the low child is compared exactly but reported as drift (dclow), as 2.5 of DESIGN.md prescribes for behaviour the contract leaves open. GetMtbddForPrefix documents 'the lowest one', so there the low choice is part of the gated values",
     "the memo tables of the apply functors are not modelled (the model is the function they memoise); address reuse inside one apply is C20's subject",
     "operator== is compared with equality of the model diagrams; that this is equality of the denoted functions is theorem C17_eqb_spec, that it is equality of roots in the store is C17_root_eq_iff_same_function under the store invariant of C18, which is proved for the operations of C18 (Project / Rename are tied by this correspondence only)",
     "correspondence is sampling: an operation tree no generator produces is not covered",
@@ -146,6 +148,23 @@ def targeted(rng, tier):
         t.C(base, 1, 0); t.C("X" * nv, 1, 0); t.C(base, 0, 1)
         for i in range(nv): t.B(1 if dom == "u" else 0, i, (i + 1) % nv)
         out.append(t.fmt())
+    for _ in range(150 * k):
+        # large diagrams: a function accumulated from many full-length constructions (the usage pattern of the BDD automata), then combined
+        dom = rng.choice("us"); nv = rng.randint(4, 5)
+        t = G.Tree(dom, nv)
+        n1, n2, n3 = G.NOPS[dom]
+        accs = []
+        for _a in range(2):
+            f = rng.choice((0, 1)) if dom == "u" else rng.choice((0, 3))
+            acc = t.C(G.rand_asgn(rng, nv, 0.0), rng.randrange(1, 4), 0)
+            for _i in range(rng.randint(3, 8)):
+                acc = t.B(f, acc, t.C(G.rand_asgn(rng, nv, 0.1), rng.randrange(1, 4), 0))
+            accs.append(acc)
+        x = t.B(rng.randrange(n2), accs[0], accs[1])
+        t.T(rng.randrange(n3), accs[0], x, accs[1]); t.U(rng.randrange(n1), x)
+        t.P(rng.choice((0, 1)), rng.randrange(1, 1 << nv), x)
+        t.X(G.rand_asgn(rng, nv), rng.randint(1, nv - 1), x)
+        out.append(t.fmt())
     return out
 
 def cases(rng, tier):
@@ -181,7 +200,7 @@ CORPUS = [
 ]
 
 import re
-def flags(verd): return dict(m.groups() for m in re.finditer(r"(?:^| )([a-z]+)=(\d+)(?= |$)", verd))
+def flags(verd): return dict(m.groups() for m in re.finditer(r"(?:^| )([a-z]+)=(\d+)(?= |$)", "" if verd.startswith("FAIL exception") else verd))
 def nontrivial(c, impl, verd):
     w = flags(verd)
     return int(w.get("handles", 0)) >= 3 and int(w.get("kinds", 0)) >= 2 and int(w.get("maxnodes", 0)) >= 2
@@ -214,8 +233,11 @@ LEVEL_TEXT = ("Coq theorems (all diagrams, assignments and leaf operations, no b
               "tree, are run on generated operation trees; every handle is compared with the extracted model on all 3^NV assignments, == on all "
               "pairs, the traversing functors; GetPaths and the low choice for don't-care are reported as drift.")
 LEVEL_NOTE = ("Trusted: Coq kernel, ExtrOcamlBasic extraction, OCaml/C++ glue, the two copies of the leaf-operation tables, generators. The C++ is modelled, "
-              "not verified; the memo tables of the apply functors are not modelled. Project is proved structurally for every leaf operation and as "
-              "a function (combination of the two cofactors) for one variable and an idempotent operation. No axioms (closed under the global context).")
+              "not verified; the memo tables of the apply functors are not modelled. Everything stated in DESIGN.md 5/C17 is proved in full (no _partial "
+              "theorem); Project is proved structurally for every leaf operation and, as a function (combination of the two cofactors), for one removed "
+              "variable and an idempotent operation (a reduced diagram skips variables, so without idempotence Project is not a function of the denoted "
+              "function). The operator== theorem is under the store invariant, which is proved preserved for the operations of C18; for Project/Rename the "
+              "== gate is correspondence only. GetValue's low choice at don't-care positions is drift, not gate. No axioms (closed under the global context).")
 TECHNIQUE = "Coq proof of a functional model of the MTBDD package; extracted-model correspondence against the instantiated templates on generated operation trees"
 DESIGN_REF = "DESIGN.md 5/C17"
-READY = False
+READY = True
